@@ -522,7 +522,9 @@ func Explore(h Harness) (Stats, []Violation, error) {
 		for r := 0; r < 5; r++ {
 			c, err := e.runOnce(vs[i].Choices)
 			if err != nil {
-				return st, vs, err
+				// the execution took a different path: treat like a failure that did not reproduce in-process
+				vs[i].Unstable = true
+				break
 			}
 			found := false
 			for _, f := range c.fails {
